@@ -21,6 +21,7 @@ import (
 	"github.com/prometheus/prometheus/model/histogram"
 	"github.com/prometheus/prometheus/model/labels"
 	"github.com/prometheus/prometheus/model/value"
+	"github.com/prometheus/prometheus/storage"
 	"github.com/prometheus/prometheus/tsdb/chunkenc"
 
 	"verif/harness/internal/gallina"
@@ -683,7 +684,7 @@ func runDirect(id int, r *gen.Rand, variant int, ops []opT, meta *gallina.Meta, 
 		meta.Hit("multi-chunk")
 	}
 	meta.Case(id, d)
-	return fmt.Sprintf("mkCase %d 0 %s %s %s %s %s [] [] []", id, kindS(float), gallina.List(opsS), gallina.List(stepsS), gallina.List(cs), gallina.List(reenc))
+	return fmt.Sprintf("mkCase %d 0 %s %s %s %s %s [] [] [] [] []", id, kindS(float), gallina.List(opsS), gallina.List(stepsS), gallina.List(cs), gallina.List(reenc))
 }
 
 func gaugeStaleIn(ops []opT) bool {
@@ -795,7 +796,7 @@ func runHead(id int, r *gen.Rand, float bool, ops []opT, out string, meta *galli
 			for i := range none {
 				none[i] = "None"
 			}
-			res = fmt.Sprintf("mkCase %d 1 %s %s [] [] [] [] %s []", id, kindS(float), gallina.List(opsS), gallina.List(none))
+			res = fmt.Sprintf("mkCase %d 1 %s %s [] [] [] [] %s [] [] []", id, kindS(float), gallina.List(opsS), gallina.List(none))
 			ok = true
 		}
 	}()
@@ -875,7 +876,7 @@ func runHead(id int, r *gen.Rand, float bool, ops []opT, out string, meta *galli
 		read("block")
 	}
 	meta.Case(id, d)
-	return fmt.Sprintf("mkCase %d 1 %s %s [] [] [] %s %s []", id, kindS(float), gallina.List(opsS), gallina.List(reads), gallina.List(after)), true
+	return fmt.Sprintf("mkCase %d 1 %s %s [] [] [] %s %s [] [] []", id, kindS(float), gallina.List(opsS), gallina.List(reads), gallina.List(after)), true
 }
 
 // ---------- mode 2: components ----------
@@ -963,7 +964,221 @@ func runComponents(id int, r *gen.Rand, meta *gallina.Meta, d desc) string {
 		}
 	}
 	meta.Case(id, d)
-	return fmt.Sprintf("mkCase %d 2 KInt [] [] [] [] [] [] %s", id, gallina.List(comps))
+	return fmt.Sprintf("mkCase %d 2 KInt [] [] [] [] [] [] %s [] []", id, gallina.List(comps))
+}
+
+// ---------- mode 3: one appender transaction with mixed sample flavours ----------
+
+const (
+	flFloat = iota
+	flIntHist
+	flFloatHist
+	flIntNHCB
+	flFloatNHCB
+)
+
+var flName = []string{"float", "inthist", "floathist", "intnhcb", "floatnhcb"}
+
+type txSample struct {
+	ser int
+	t   int64
+	fl  int
+	v   float64
+	h   *histogram.Histogram
+	fh  *histogram.FloatHistogram
+}
+
+// txValue builds the idx-th sample of a transaction in the given flavour (values grow with idx,
+// so that the samples of one series are distinguishable and counter-like).
+func txValue(fl, idx int) (v float64, h *histogram.Histogram, fh *histogram.FloatHistogram) {
+	n := int64(idx + 1)
+	switch fl {
+	case flFloat:
+		return float64(n) * 1.5, nil, nil
+	case flIntHist:
+		return 0, &histogram.Histogram{Schema: 1, ZeroThreshold: 0.001, ZeroCount: uint64(n), Count: uint64(5*n + 1), Sum: float64(n),
+			PositiveSpans: []histogram.Span{{Offset: 0, Length: 2}}, PositiveBuckets: []int64{2 * n, 1 - n},
+			NegativeSpans: []histogram.Span{{Offset: 1, Length: 1}}, NegativeBuckets: []int64{n}}, nil
+	case flFloatHist:
+		return 0, nil, &histogram.FloatHistogram{Schema: 1, ZeroThreshold: 0.001, ZeroCount: float64(n), Count: float64(4*n) + 1.5, Sum: float64(n),
+			PositiveSpans: []histogram.Span{{Offset: 0, Length: 2}}, PositiveBuckets: []float64{2 * float64(n), float64(n) + 1.5},
+			NegativeSpans: []histogram.Span{{Offset: 1, Length: 1}}, NegativeBuckets: []float64{float64(n)}}
+	case flIntNHCB:
+		return 0, &histogram.Histogram{Schema: histogram.CustomBucketsSchema, Count: uint64(3 * n), Sum: float64(n), CustomValues: []float64{1, 2.5, 10},
+			PositiveSpans: []histogram.Span{{Offset: 0, Length: 2}}, PositiveBuckets: []int64{2 * n, -n}}, nil
+	}
+	return 0, nil, &histogram.FloatHistogram{Schema: histogram.CustomBucketsSchema, Count: 3 * float64(n), Sum: float64(n), CustomValues: []float64{1, 2.5, 10},
+		PositiveSpans: []histogram.Span{{Offset: 0, Length: 2}}, PositiveBuckets: []float64{2 * float64(n), float64(n)}}
+}
+
+func tvalS(v float64, h *histogram.Histogram, fh *histogram.FloatHistogram) string {
+	switch {
+	case fh != nil:
+		return "(VH KFloat " + H{F: fh}.String() + ")"
+	case h != nil:
+		return "(VH KInt " + H{I: h}.String() + ")"
+	}
+	return "(VF " + fbits(v) + ")"
+}
+
+// txEnv is the database shared by the transaction cases (every case uses its own series).
+type txEnv struct {
+	out string
+	db  *tsdbx.DB
+	dir string
+}
+
+func (e *txEnv) get() *tsdbx.DB {
+	if e.db == nil {
+		dir, err := os.MkdirTemp(e.out, "c11tx")
+		if err != nil {
+			panic(err)
+		}
+		db, err := tsdbx.Open(dir, tsdbx.Options{BlockRange: 3600_000 * 24 * 30})
+		if err != nil {
+			panic(err)
+		}
+		e.db, e.dir = db, dir
+	}
+	return e.db
+}
+
+// poison abandons the database after a panic inside it (its locks may still be held).
+func (e *txEnv) poison() { e.db = nil }
+
+func (e *txEnv) close() {
+	if e.db != nil {
+		e.db.DB.Close()
+		os.RemoveAll(e.dir)
+		e.db = nil
+	}
+}
+
+func runTx(id int, env *txEnv, v2 bool, samples []txSample, meta *gallina.Meta, d desc) (res string) {
+	var ins []string
+	for _, s := range samples {
+		ins = append(ins, fmt.Sprintf("mkTxIn %d %s %s", s.ser, z(s.t), tvalS(s.v, s.h, s.fh)))
+	}
+	defer func() {
+		if p := recover(); p != nil {
+			env.poison()
+			d.Shape = "tx-panic"
+			meta.GoViol = append(meta.GoViol, gallina.GoViolation{ID: fmt.Sprint(id), Shape: "tx-panic", What: fmt.Sprintf("panic in a mixed-flavour transaction: %v", p)})
+			meta.Hit("tx-panic")
+			meta.Case(id, d)
+			res = fmt.Sprintf("mkCase %d 3 KInt [] [] [] [] [] [] [] %s []", id, gallina.List(ins))
+		}
+	}()
+	db := env.get()
+	lbl := func(ser int) labels.Labels {
+		return labels.FromStrings("__name__", "tx", "c", fmt.Sprint(id), "s", fmt.Sprint(ser))
+	}
+	appendErr := func(i int, err error) {
+		meta.GoViol = append(meta.GoViol, gallina.GoViolation{ID: fmt.Sprint(id), Shape: "tx-append-error", What: fmt.Sprintf("sample %d (%s): %v", i, flName[samples[i].fl], err)})
+		d.Shape = "tx-append-error"
+	}
+	if v2 {
+		app := db.DB.AppenderV2(context.Background())
+		for i, s := range samples {
+			if _, err := app.Append(0, lbl(s.ser), 0, s.t, s.v, s.h, s.fh, storage.AppendV2Options{}); err != nil {
+				appendErr(i, err)
+			}
+		}
+		if err := app.Commit(); err != nil {
+			panic(err)
+		}
+	} else {
+		app := db.DB.Appender(context.Background())
+		for i, s := range samples {
+			var err error
+			if s.fl == flFloat {
+				_, err = app.Append(0, lbl(s.ser), s.t, s.v)
+			} else {
+				_, err = app.AppendHistogram(0, lbl(s.ser), s.t, s.h, s.fh)
+			}
+			if err != nil {
+				appendErr(i, err)
+			}
+		}
+		if err := app.Commit(); err != nil {
+			panic(err)
+		}
+	}
+	// read every series of the case back
+	sers := map[int]bool{}
+	var order []int
+	for _, s := range samples {
+		if !sers[s.ser] {
+			sers[s.ser] = true
+			order = append(order, s.ser)
+		}
+	}
+	q, err := db.DB.Querier(math.MinInt64, math.MaxInt64)
+	if err != nil {
+		panic(err)
+	}
+	defer q.Close()
+	var reads []string
+	for _, ser := range order {
+		ss := q.Select(context.Background(), true, nil,
+			labels.MustNewMatcher(labels.MatchEqual, "c", fmt.Sprint(id)), labels.MustNewMatcher(labels.MatchEqual, "s", fmt.Sprint(ser)))
+		var items []string
+		for ss.Next() {
+			it := ss.At().Iterator(nil)
+			for vt := it.Next(); vt != chunkenc.ValNone; vt = it.Next() {
+				switch vt {
+				case chunkenc.ValFloat:
+					t, v := it.At()
+					items = append(items, fmt.Sprintf("(%s, %s)", z(t), tvalS(v, nil, nil)))
+				case chunkenc.ValHistogram:
+					t, h := it.AtHistogram(nil)
+					items = append(items, fmt.Sprintf("(%s, %s)", z(t), tvalS(0, h, nil)))
+				case chunkenc.ValFloatHistogram:
+					t, fh := it.AtFloatHistogram(nil)
+					items = append(items, fmt.Sprintf("(%s, %s)", z(t), tvalS(0, nil, fh)))
+				}
+			}
+			if it.Err() != nil {
+				panic(it.Err())
+			}
+		}
+		if ss.Err() != nil {
+			panic(ss.Err())
+		}
+		if len(items) != countSer(samples, ser) {
+			meta.Hit("tx-samples-missing")
+		}
+		reads = append(reads, fmt.Sprintf("(%d, %s)", ser, gallina.List(items)))
+	}
+	meta.Case(id, d)
+	return fmt.Sprintf("mkCase %d 3 KInt [] [] [] [] [] [] [] %s %s", id, gallina.List(ins), gallina.List(reads))
+}
+
+func countSer(samples []txSample, ser int) int {
+	n := 0
+	for _, s := range samples {
+		if s.ser == ser {
+			n++
+		}
+	}
+	return n
+}
+
+func flavourSeq(fls []int, ser int) []txSample {
+	var out []txSample
+	for i, fl := range fls {
+		v, h, fh := txValue(fl, i)
+		out = append(out, txSample{ser: ser, t: int64(1000 * (i + 1)), fl: fl, v: v, h: h, fh: fh})
+	}
+	return out
+}
+
+func seqName(samples []txSample) string {
+	var p []string
+	for _, s := range samples {
+		p = append(p, fmt.Sprintf("%d:%s", s.ser, flName[s.fl]))
+	}
+	return strings.Join(p, ",")
 }
 
 func main() {
@@ -1056,6 +1271,64 @@ func main() {
 		meta.Evaluations++
 		id++
 	}
+	// mode 3: transaction-level cases. Every ordered pair and triple of flavours on one series in one
+	// Commit (quick: each through Appender or AppenderV2 alternately; thorough: through both), plus
+	// random longer transactions over two series.
+	env := &txEnv{out: f.Out}
+	var seqs [][]int
+	for a := 0; a < 5; a++ {
+		for b := 0; b < 5; b++ {
+			seqs = append(seqs, []int{a, b})
+			for c := 0; c < 5; c++ {
+				seqs = append(seqs, []int{a, b, c})
+			}
+		}
+	}
+	for i, fls := range seqs {
+		for k := 0; k < 2; k++ {
+			v2 := k == 1
+			if f.Tier != "thorough" && (i+int(f.Seed))%2 != k {
+				continue
+			}
+			samples := flavourSeq(fls, 0)
+			api := "Appender"
+			if v2 {
+				api = "AppenderV2"
+			}
+			cf.Add(runTx(id, env, v2, samples, meta, desc{Mode: 3, Variant: api, Seed: f.Seed, Index: 4_000_000 + i, Ops: len(samples), Shape: "tx-" + api, Note: seqName(samples)}))
+			meta.Hit("mode3-" + api)
+			if len(fls) == 2 {
+				meta.Hit("tx-pair")
+			} else {
+				meta.Hit("tx-triple")
+			}
+			meta.Nontrivial++
+			meta.Evaluations++
+			id++
+		}
+	}
+	for i := 0; i < f.Count(20, 400); i++ {
+		r := gen.Fork(f.Seed, 5_000_000+i)
+		n := 3 + r.Intn(6)
+		var samples []txSample
+		for j := 0; j < n; j++ {
+			fl := r.Intn(5)
+			v, h, fh := txValue(fl, j)
+			samples = append(samples, txSample{ser: r.Intn(2), t: int64(1000 * (j + 1)), fl: fl, v: v, h: h, fh: fh})
+		}
+		v2 := r.Bool()
+		api := "Appender"
+		if v2 {
+			api = "AppenderV2"
+		}
+		cf.Add(runTx(id, env, v2, samples, meta, desc{Mode: 3, Variant: api, Seed: f.Seed, Index: 5_000_000 + i, Ops: n, Shape: "tx-" + api, Note: seqName(samples)}))
+		meta.Hit("mode3-" + api)
+		meta.Hit("tx-random-two-series")
+		meta.Nontrivial++
+		meta.Evaluations++
+		id++
+	}
+	env.close()
 	cf.Flush()
 	_ = strings.Join
 	meta.Write(f.Out)
